@@ -1,7 +1,49 @@
 """C13 check configuration (data only)."""
+import os
+import re
 from propbase import KERNEL, HARNESS
 
-PROP = {'gen': [],
+MAX_PIXELS = 2 ** 56   # OctreeProofs.max_pixels: the images the theorems cover
+
+
+def _widths(ctx):
+    """Extra check: the accumulator widths regenerated into Gen/TabOctree.v must hold the sums of every image
+    of at most 2^56 pixels (Coq: C13_machine_words).  When they do not, the smallest overflowing image is
+    computed (a failing input by construction: n pixels of one colour with a 255 channel, requested palette
+    size large enough that from_image does not sub-sample) and, if it is small enough to run, confirmed by
+    inserting that many colours into an OcTree through the public API."""
+    path = os.path.join(ctx["coq"], "theories", "Gen", "TabOctree.v")
+    try:
+        text = open(path).read()
+    except OSError:
+        return {"notes": ["Gen/TabOctree.v missing: accumulator widths not checked"]}
+    vals = dict((k, int(v)) for k, v in re.findall(r"Definition (\w+) : N := (\d+)\.", text))
+    acc, cnt = vals.get("leaf_acc_bits", 64), vals.get("leaf_count_bits", 64)
+    n_acc = -(-(2 ** acc) // 255)          # smallest n with 255 * n >= 2^acc
+    n_cnt = 2 ** cnt                       # smallest n that does not fit the counter
+    res = {"coverage": {"leaf_acc_bits": acc, "leaf_count_bits": cnt,
+                        "smallest_overflowing_pixel_count": min(n_acc, n_cnt)}, "violations": [], "notes": []}
+    if 255 * MAX_PIXELS < 2 ** acc and MAX_PIXELS < 2 ** cnt:
+        return res
+    n = min(n_acc, n_cnt)
+    case = {"kind": "accumulator-overflow", "pixels": n, "colour": [255, 255, 255], "palette_size": n // 199 + 1,
+            "leaf_acc_bits": acc, "leaf_count_bits": cnt}
+    what = ("the property fails for an image of %d pixels of colour #ffffff (requested palette size %d, not sub-sampled): "
+            "the octree leaf accumulators are declared %d / %d bits wide, 255 * %d does not fit; debug builds panic, "
+            "release builds wrap and the palette colour is no longer the image colour" % (n, n // 199 + 1, acc, cnt, n))
+    if n <= 60_000_000 and ctx.get("exe"):
+        rc, out = ctx["sh"]([ctx["exe"], "tool", "c13acc", str(n), "255", "255", "255"], timeout=900)
+        verdict = (out or "").strip().splitlines()[-1] if (out or "").strip() else "no output (rc=%d)" % rc
+        case["confirmed_by_OcTree_insert"] = verdict
+        what += "; OcTree::insert x %d + build_palette on the real code: %s" % (n, verdict)
+        if verdict.startswith("ok"):
+            res["notes"].append("computed overflow at %d pixels was NOT confirmed by the implementation (%s)" % (n, verdict))
+    res["violations"].append({"kind": "failing-input", "what": what, "case": case})
+    return res
+
+
+PROP = {'gen': ['octree'],
+ 'extra': [_widths],
  'coq_props': ['theories/Props/C13.vo'],
  'coq_corr': ['theories/Corr/C13Corr.vo'],
  'props_file': 'theories/Props/C13.v',
@@ -14,7 +56,8 @@ PROP = {'gen': [],
                'usize::MAX since the saturating-product fix) palette extraction terminates (explicit fuel bound, stale caches and '
                'unreachable!() arms as Panic sites included) with 1..max(k,8) colours, every index is valid for any dithering error, '
                'undithered pixels map to nearest entries, images whose colours fit are reproduced exactly with and without dithering; '
-               'the Floyd-Steinberg slots stay within 255.0 (exactness of the f32 arithmetic). Models tied to the code by exact '
+               'the Floyd-Steinberg slots stay within 255.0 (exactness of the f32 arithmetic); leaf accumulators are checked machine words of '
+               'the regenerated widths, proved not to overflow for images of at most 2^56 pixels (C13_machine_words). Models tied to the code by exact '
                'differential runs incl. sub-sampled images up to 10k pixels, crops of large parents and the Rnd stream.',
  'level_note': 'Trusted: Coq kernel + vm_compute; hand-written models validated by the correspondence run; '
                'rasterize blend_over enters as an oracle (effective pixels). No axioms.',
@@ -27,10 +70,14 @@ PROP = {'gen': [],
  'trusted_base': [KERNEL,
                   'hand-written models Image/KDTree.v, Image/Octree.v, Image/Quantize.v of src/image.rs, tied to the code by the '
                   'correspondence run (exact equality of palettes, indices, octree dumps)',
+                  'translate/octree_types.py: field types of OcTreeLeaf / OcTreeInfo / ColorError / KDNode / Rnd and the casts feeding the '
+                  'accumulators are re-extracted from the source each run (Gen/TabOctree.v); the model checks every accumulator against them',
                   'rasterize::RGBA::blend_over (alpha compositing) is an oracle: the harness passes effective pixels',
                   'Floyd-Steinberg errors are modelled in Z sixteenths instead of f32: justified by C13_dither_slots (every slot is a '
                   'multiple of 1/16 within 255.0, so each binary32 operation of the code is exact) and by the exact '
                   'correspondence of dithered index images',
                   HARNESS],
- 'assumptions': ['requested palette size >= 1 (0 divides by zero in from_image); every size up to usize::MAX is covered since the fix 38c2d5c (saturating product)',
+ 'assumptions': ['an image has at most 2^56 pixels (OctreeProofs.max_pixels; 2^58 bytes of RGBA): under it the octree accumulators '
+                 'of the declared widths (regenerated, Gen/TabOctree.v) provably never overflow',
+                 'requested palette size >= 1 (0 divides by zero in from_image); every size up to usize::MAX is covered since the fix 38c2d5c (saturating product)',
                  'usize accumulators do not overflow (needs > 2^56 pixels)']}
